@@ -137,6 +137,26 @@ def params(fn: ast.AST) -> List[str]:
     return [x.arg for x in (a.posonlyargs + a.args)] + [x.arg for x in a.kwonlyargs]
 
 
+_NEG_OP = {ast.Eq: ast.NotEq, ast.NotEq: ast.Eq, ast.Lt: ast.GtE, ast.GtE: ast.Lt, ast.Gt: ast.LtE, ast.LtE: ast.Gt,
+           ast.Is: ast.IsNot, ast.IsNot: ast.Is, ast.In: ast.NotIn, ast.NotIn: ast.In}
+
+
+def nnf(test: ast.AST, negate: bool = False) -> ast.AST:
+    """Negation normal form of a test: `not` pushed inwards over and/or (De Morgan), single comparisons flipped."""
+    if isinstance(test, ast.UnaryOp) and isinstance(test.op, ast.Not):
+        return nnf(test.operand, not negate)
+    if isinstance(test, ast.BoolOp):
+        op = test.op
+        if negate:
+            op = ast.Or() if isinstance(op, ast.And) else ast.And()
+        return ast.copy_location(ast.BoolOp(op=op, values=[nnf(v, negate) for v in test.values]), test)
+    if negate and isinstance(test, ast.Compare) and len(test.ops) == 1 and type(test.ops[0]) in _NEG_OP:
+        return ast.copy_location(ast.Compare(left=test.left, ops=[_NEG_OP[type(test.ops[0])]()], comparators=test.comparators), test)
+    if negate:
+        return ast.copy_location(ast.UnaryOp(op=ast.Not(), operand=test), test)
+    return test
+
+
 def bind_args(call: ast.Call, fn: ast.AST, skip_self: bool = False) -> Dict[str, Optional[ast.AST]]:
     """Map the callee's parameter names to the argument expressions of `call` (positional then keyword); a parameter
     left to its default maps to the default expression; `*args`/`**kw` at the call site make the binding unknown
